@@ -107,6 +107,9 @@ def run(ctx):
     st = explore(nz, ["noise"], 1, sink, stats=st, name="noisy/b1", pos_ok=lambda k, p, r: p % (6 if q else 2) == 0)
     # (d) long runs pressing against the faces
     lg = [job(D, g, "in", "det", t, None, s, opts={"tol_mesh": 1e-6, "max_fun_evals": 150}) for D in Ds for g in ("lin", "log", "mixed", "log2", "lin2", "log3") for t in ("sphere_out", "sphere_below") if not (g == "mixed" and D == 1) for s in seeds]
+    # ... and the same with x0 given in single precision (the bounds 0.3-ish of lin2 are not representable in float32)
+    lg += [dict(job(D, g, "in", "det", t, None, seeds[0], opts={"tol_mesh": 1e-8, "max_fun_evals": 200, "tol_fun": 1e-12}), x0_dtype="float32")
+           for D in (1, 2) for g in ("lin2", "lin", "log2") for t in ("sphere_out", "sphere_below")]
     st = explore(lg, ["ans"], 0, sink, stats=st, name="long/faces")
     # (g) starts just beyond the 0.1% margin of a hard bound, also with coarse search grids (the snapped start may cross the bound)
     nb = [job(D, g, x0, "det", "sphere_out", None, seeds[0], opts=dict(o, max_fun_evals=12, tol_mesh=1e-6)) for D in (1, 2) for g in ("lin", "lin2", "log", "log2", "tight")
